@@ -5,6 +5,7 @@ import (
 	"fmt"
 	"io"
 	"os"
+	"slices"
 	"sync"
 
 	"github.com/uber/kraken/lib/store/disk"
@@ -144,6 +145,9 @@ func (f *flusher) abort(key string) {
 	defer f.mu.Unlock()
 
 	delete(f.blobs, key)
+	// Drop the key's queue entry too: if the key is re-created and enqueued again, a
+	// leftover entry would let a second worker flush the same blob concurrently.
+	f.queue = slices.DeleteFunc(f.queue, func(k string) bool { return k == key })
 }
 
 func (f *flusher) worker() {
